@@ -581,3 +581,67 @@ _run_c34c = run
 def run(ctx):  # noqa: F811
     _run_c34c(ctx)
     r34_5(ctx, ctx.model)
+
+
+# ---------------------------------------------------------------------------------------------------------------- R34.8
+def r34_8(ctx, m):
+    R = "R34.8"
+    ctx.rule(R, "analytic prior term 1/2 (Tr Sigma + m^dagger m) of both ELBO estimators: m is the expansion point of the samples "
+                "(nifty.re: samples.pos has priority, the empirical mean of the absolute samples is only the fallback when no "
+                "position is stored; nifty.cl: samples.mean, the stored mean of the residual list) and m^dagger m is the inner product "
+                "of m with itself - not an energy (1/2 m^dagger m) and not the mean of a possibly non-antithetic sample set", floor=3)
+    # ---- nifty.re
+    fi = m.func("nifty.re.evidence_lower_bound", "estimate_evidence_lower_bound")
+    ctx.saw_func(fi)
+    key = f"{fi.key}::expansion point has priority over the empirical sample mean"
+    chains = [st for st in ast.walk(fi.node) if isinstance(st, ast.If) and any(isinstance(b, ast.Assign) and src(b.targets[0]) == "mean" for b in st.body)]
+    # outermost chain: the If that is not in the orelse of another candidate
+    inner = {id(o) for st in chains for o in st.orelse}
+    top = [st for st in chains if id(st) not in inner]
+    if len(top) != 1:
+        ctx.und(R, key, f"{len(top)} selection chains for `mean`", fi)
+    else:
+        st = top[0]
+        first = [b for b in st.body if isinstance(b, ast.Assign) and src(b.targets[0]) == "mean"][0]
+        t = src(st.test)
+        if ".pos is not None" in t and src(first.value).endswith(".pos"):
+            ctx.ok(R, key, f"first choice `{src(first.value)}` under `{t}`", fi, st)
+        elif "len(" in t or "mean(" in src(first.value):
+            ctx.bad(R, key, f"first choice is `{short(first.value, 60)}` under `{t}`: for samples whose residuals do not cancel this is pos + mean(residuals), "
+                            "not the point the metric was expanded at", fi, st)
+        else:
+            ctx.und(R, key, f"first choice `{short(first.value, 60)}` under `{t}`", fi, st)
+    for mn in ("nifty.re.evidence_lower_bound", "nifty.cl.evidence_lower_bound"):
+        fi = m.func(mn, "estimate_evidence_lower_bound")
+        ctx.saw_func(fi)
+        key = f"{fi.key}::prior_mean_sq is the inner product of the mean with itself"
+        asg = [st for st in ast.walk(fi.node) if isinstance(st, ast.Assign) and src(st.targets[0]) == "prior_mean_sq"
+               and not (isinstance(st.value, ast.Constant))]
+        if not asg:
+            ctx.und(R, key, "assignment not found", fi)
+            continue
+        for st in asg:
+            dots = [c for c in ast.walk(st.value) if isinstance(c, ast.Call) and call_name(c) in ("vdot", "s_vdot", "dot")]
+            energies = [c for c in ast.walk(st.value) if isinstance(c, ast.Call) and any(k in src(c.func) for k in ("energy", "hamiltonian", "prior"))]
+            if energies:
+                ctx.bad(R, key, f"`{short(st.value, 80)}` evaluates an energy: the standard prior energy is 1/2 m^dagger m, half of the term", fi, st)
+                continue
+            if len(dots) != 1:
+                ctx.und(R, key, f"`{short(st.value, 80)}`", fi, st)
+                continue
+            d = dots[0]
+            if isinstance(d.func, ast.Attribute) and call_name(d) in ("vdot", "s_vdot") and len(d.args) == 1 and not src(d.func.value) in ("jnp", "np", "jft"):
+                a, b = src(d.func.value), src(d.args[0])
+            elif len(d.args) == 2:
+                a, b = src(d.args[0]), src(d.args[1])
+            else:
+                a = b = None
+            ctx.check(R, key, (a == b and a is not None and ("mean" in a or "pos" in a)) if a is not None else None, f"`{src(d)}`", fi, st)
+
+
+_run_c34d = run
+
+
+def run(ctx):  # noqa: F811
+    _run_c34d(ctx)
+    r34_8(ctx, ctx.model)
